@@ -547,6 +547,79 @@ Proof.
   - simpl. field. exact Z.
 Qed.
 
+(** * Bare (unit-less) uncertain operands *)
+Lemma Qcplus_nonneg_zero x y : (0 <= x)%Qc → (0 <= y)%Qc → (x + y = 0)%Qc → x = 0%Qc ∧ y = 0%Qc.
+Proof.
+  intros Hx Hy H.
+  assert (Ex : x = 0%Qc).
+  { apply Qcle_antisym; [|exact Hx]. rewrite <- H. replace x with (x + 0)%Qc at 1 by ring.
+    apply Qcplus_le_compat; [apply Qcle_refl | exact Hy]. }
+  split; [exact Ex|]. rewrite Ex in H. rewrite <- H. ring.
+Qed.
+Lemma qsum_nonneg_zero {A} (f : A → Qc) l :
+  (∀ x, x ∈ l → (0 <= f x)%Qc) → qsum f l = 0%Qc → ∀ x, x ∈ l → f x = 0%Qc.
+Proof.
+  induction l as [|y l IH]; intros Hn Hs x Hx; [inversion Hx|]. simpl in Hs.
+  destruct (Qcplus_nonneg_zero (f y) (qsum f l)) as [Hy Hl].
+  - apply Hn. left.
+  - apply qsum_nonneg. intros z Hz. apply Hn. right. exact Hz.
+  - exact Hs.
+  - inversion Hx; subst; [exact Hy|]. apply IH; auto. intros z Hz. apply Hn. right. exact Hz.
+Qed.
+Lemma Qc_sq_zero_ x : (x * x = 0)%Qc → x = 0%Qc.
+Proof. intros H. destruct (Qcmult_integral _ _ H); assumption. Qed.
+Lemma sq_nonneg x : (0 <= x * x)%Qc.
+Proof. rewrite <- Qcabs_sq. apply Qcmult_nonneg; apply Qcabs_nonneg. Qed.
+(** an uncertain number without uncertainty is uncorrelated with everything *)
+Lemma covariance_zero_variance E a b : variance E b = 0%Qc → covariance E a b = 0%Qc.
+Proof.
+  unfold variance, covariance, wsum. intros H. apply qsum_zero. intros [i s] Hin. simpl.
+  assert (Hz : (dcoef (der b) i * dcoef (der b) i * (s * s))%Qc = 0%Qc).
+  { pose proof (qsum_nonneg_zero (λ iv : atom * Qc, (dcoef (der b) iv.1 * dcoef (der b) iv.1 * (iv.2 * iv.2))%Qc)
+             (map_to_list E)) as Q.
+    specialize (Q (λ jt _, Qcmult_nonneg _ _ (sq_nonneg _) (sq_nonneg _)) H (i, s) Hin). exact Q. }
+  assert (Hp : (dcoef (der b) i * s)%Qc = 0%Qc).
+  { apply Qc_sq_zero_. rewrite <- Hz. ring. }
+  replace (dcoef (der a) i * dcoef (der b) i * (s * s))%Qc
+    with (dcoef (der a) i * s * (dcoef (der b) i * s))%Qc by ring.
+  rewrite Hp. ring.
+Qed.
+
+Lemma bare_zero_spec E b : bare_zero E b = true ↔ nom b = 0%Qc ∧ variance E b = 0%Qc.
+Proof. unfold bare_zero. rewrite andb_true_iff, !qz_spec. reflexivity. Qed.
+(** 0 ± s with s > 0 is not a zero *)
+Lemma bare_uncertain_not_zero E b : variance E b ≠ 0%Qc → bare_zero E b = false.
+Proof.
+  intros H. destruct (bare_zero E b) eqn:Z; [|reflexivity]. apply bare_zero_spec in Z as [_ Z]. contradiction.
+Qed.
+(** a bare number that is not an exact zero cannot be added to a quantity with a dimension *)
+Lemma bare_rule_refuses sub r E m b d :
+  dim_of r (m_units m) = Ok d → d ≠ ∅ → bare_zero E b = false →
+  meas_addsub_bare sub r E m b = Err EDim.
+Proof.
+  intros Hd Hn Hz. unfold meas_addsub_bare. rewrite Hz, Hd. simpl.
+  destruct (uc_eqb d ∅) eqn:Eq; [apply uc_eqb_spec in Eq; contradiction | reflexivity].
+Qed.
+(** an exact zero is accepted whatever the units and changes neither value nor uncertainty *)
+Lemma bare_rule_zero sub r E m b :
+  bare_zero E b = true →
+  ∃ z, meas_addsub_bare sub r E m b = Ok z ∧ m_units z = m_units m
+     ∧ nom (m_mag z) = nom (m_mag m) ∧ variance E (m_mag z) = variance E (m_mag m).
+Proof.
+  intros Hz. unfold meas_addsub_bare. rewrite Hz. apply bare_zero_spec in Hz as [Hn Hv].
+  eexists. split; [reflexivity|]. split; [reflexivity|].
+  destruct sub; simpl.
+  - split; [rewrite Hn; ring|]. rewrite variance_sub, Hv, (covariance_zero_variance E _ b Hv). ring.
+  - split; [rewrite Hn; ring|]. rewrite variance_add, Hv, (covariance_zero_variance E _ b Hv). ring.
+Qed.
+(** the refusal does not depend on the class of the magnitude: what decides is the dimension *)
+Lemma bare_rule_dimensionless sub r E m b m' :
+  bare_zero E b = false → dim_of r (m_units m) = Ok ∅ → meas_to r m ∅ = Ok m' →
+  meas_addsub_bare sub r E m b = Ok (Meas ((if sub then aff_sub else aff_add) (m_mag m') b) ∅).
+Proof.
+  intros Hz Hd Ht. unfold meas_addsub_bare. rewrite Hz, Hd. simpl. rewrite uc_eqb_refl, Ht. reflexivity.
+Qed.
+
 (** * [join_unc]: parentheses are added iff absent *)
 Lemma join_unc_spec sep lpar rpar m u :
   (String.prefix lpar m = false → ends_with rpar m = false →
